@@ -16,6 +16,7 @@ def parseResp (s : String) : Option Resp :=
 
 def parseEv (s : String) : Option Ev :=
   if s == "t" then some .timeout
+  else if s.startsWith "k:" then some (.tick (s.drop 2).toString.toNat!)
   else if s == "l" then some .lost
   else if s == "ma" then some .mwAllow
   else if s == "mr" then some .mwRaise
@@ -49,18 +50,22 @@ def parseHandler (hs : String) : Option HScript :=
   if hs == "r" then some .syncRaise else if hs == "a" then some .async
   else if hs.startsWith "s:" then (parseResp (hs.drop 2).toString).map .sync else none
 
+def connLine (env : Url.Env) (mw up hs : String) (evs : List String) : Option String :=
+  match parseHandler hs, evs.mapM parseEv with
+  | some handler, some evs =>
+    let cfg : Cfg := { mw := mw == "1", upload := up == "1", handler, env }
+    let s := run cfg evs
+    some s!"ok {" ".intercalate (s.out.map showOut)} | h={s.hcalls} u={s.ucalls} m={s.mwcalls} content={toHex (if s.ucalls > 0 then s.content else [])} timer={s.timer} phase={repr s.phase}"
+  | _, _ => some "bad-op"
+
 def handle : List String → Option String
   | "render" :: [r] =>
     match parseResp r with
     | some resp => let (h, b) := render resp; some s!"ok {toHex h} {toHex b}"
     | none => some "bad-op"
-  | "conn" :: mw :: up :: hs :: evs =>
-    match parseHandler hs, evs.mapM parseEv with
-    | some handler, some evs =>
-      let cfg : Cfg := { mw := mw == "1", upload := up == "1", handler, env := asciiEnv }
-      let s := run cfg evs
-      some s!"ok {" ".intercalate (s.out.map showOut)} | h={s.hcalls} u={s.ucalls} m={s.mwcalls} content={toHex (if s.ucalls > 0 then s.content else [])} timer={s.timer}"
-    | _, _ => some "bad-op"
+  | "conn" :: mw :: up :: hs :: evs => connLine asciiEnv mw up hs evs
+  | "connx" :: ip :: nf :: mw :: up :: hs :: evs =>
+    connLine { asciiEnv with ipLiteralOk := fun _ => ip == "1", nfkcOk := fun _ => nf == "1" } mw up hs evs
   | "pump" :: up :: hs :: evs =>
     match parseHandler hs, evs.mapM parsePEv with
     | some handler, some evs =>
